@@ -242,8 +242,10 @@ class LaplacianChannel(BaseChannel):
 
         # Handle complex input
         if torch.is_complex(x):
-            noise_real = self._get_laplacian_noise(x.real.shape, x.device) * scale
-            noise_imag = self._get_laplacian_noise(x.imag.shape, x.device) * scale
+            # a configured noise power / SNR is the TOTAL power of the complex noise: half of it per component
+            component_scale = scale if self.scale is not None else scale / (2**0.5)
+            noise_real = self._get_laplacian_noise(x.real.shape, x.device) * component_scale
+            noise_imag = self._get_laplacian_noise(x.imag.shape, x.device) * component_scale
             noise = torch.complex(noise_real, noise_imag)
         else:
             noise = self._get_laplacian_noise(x.shape, x.device) * scale
